@@ -134,10 +134,10 @@ fn main() {
                         let _ = g.hdr.decrypt(&g.cc, &u, Some(b"ad")); let _ = u.serialize().map(|s| s.len() == u.length()); });
                     (1, if r.is_ok() { 1 } else { 2 }) } },
                 "MSK" => match MasterSecretKey::deserialize(&b) { Err(_) => (0, 0), Ok(m) => {
-                    let r = std::panic::catch_unwind(|| { let _ = m.mpk().map(|p| p.tracing_level()); let _ = g.cc.recaps(&m, &g.mpk, &g.enc_c); let _ = m.serialize().map(|s| s.len() == m.length()); });
+                    let r = std::panic::catch_unwind(|| { let _ = m.mpk().map(|p| p.tracing_level()); let _ = m.access_structure.attributes().count(); let _ = m.access_structure.dimensions().count(); let _ = g.cc.recaps(&m, &g.mpk, &g.enc_c); let _ = m.serialize().map(|s| s.len() == m.length()); });
                     (1, if r.is_ok() { 1 } else { 2 }) } },
                 "MPK" => match MasterPublicKey::deserialize(&b) { Err(_) => (0, 0), Ok(p) => {
-                    let r = std::panic::catch_unwind(|| { let _ = p.tracing_level(); let _ = g.cc.encaps(&p, &ap("*")); let _ = g.cc.encaps(&p, &ap("D::a")); let _ = p.serialize().map(|s| s.len() == p.length()); });
+                    let r = std::panic::catch_unwind(|| { let _ = p.tracing_level(); let _ = p.access_structure.attributes().count(); let _ = p.access_structure.dimensions().count(); let _ = g.cc.encaps(&p, &ap("*")); let _ = g.cc.encaps(&p, &ap("D::a")); let _ = p.serialize().map(|s| s.len() == p.length()); });
                     (1, if r.is_ok() { 1 } else { 2 }) } },
                 "ST" => match AccessStructure::deserialize(&b) { Err(_) => (0, 0), Ok(s) => {
                     let r = std::panic::catch_unwind(|| { let _ = s.dimensions().count(); let _ = s.attributes().count(); let _ = s.ap_to_usk_rights(&ap("*")).map(|r| r.len()); let _ = s.serialize().map(|x| x.len() == s.length());
